@@ -5,45 +5,10 @@
   instantiated at ℝ; IEEE rounding is not modelled).
 -/
 import SnowProofs.Lemmas.Snowing2D
-import SnowModel.Snowing1D
+import SnowProofs.Lemmas.Stencil1D
 
 namespace Snow.C15
-open Snow Num Snow.S2D
-
-/-- the 1D cooling update of a column `col` (ghost values `Tb` below, `Tt` above),
-written out: this is what `Snow.coolStencil` (the stencil of `_run_1D`) computes,
-see `coolStencil_eq_col1D`. -/
-noncomputable def col1D (Nz : Nat) (fo Tb Tt : ℝ) (col : Nat → ℝ) (i : Nat) : ℝ :=
-  if i = 0 then col 0 + fo * (col 1 - 2 * col 0 + Tb)
-  else if i + 1 = Nz then col i + fo * (Tt - 2 * col i + col (Nz - 2))
-  else col i + fo * (col (i + 1) - 2 * col i + col (i - 1))
-
-theorem aget_ofFn {n : Nat} (g : Fin n → ℝ) (i : Nat) (h : i < n) :
-    aget (Array.ofFn g) i = g ⟨i, h⟩ := by
-  simp [aget, Array.getD, h]
-
-/-- `Snow.coolStencil` (wpE's model of the 1D cooling stencil) is `col1D` -/
-theorem coolStencil_eq_col1D (Nz : Nat) (fo Tb Tt : ℝ) (col : Nat → ℝ) (i : Nat) (hi : i < Nz)
-    (hNz : 2 ≤ Nz) :
-    aget (coolStencil fo Tb Tt (Array.ofFn (n := Nz) fun k => col k.val)) i
-      = col1D Nz fo Tb Tt col i := by
-  have h1 : ∀ k, k < Nz → aget (Array.ofFn (n := Nz) fun k => col k.val) k = col k := by
-    intro k hk; exact aget_ofFn _ k hk
-  unfold coolStencil col1D
-  generalize hA : (Array.ofFn (n := Nz) fun k => col k.val) = A at h1
-  have hs : A.size = Nz := by rw [← hA]; simp
-  rw [aget_ofFn _ i (by omega)]
-  simp only [ofNat'_real, Nat.cast_ofNat, hs]
-  by_cases h0 : i = 0
-  · subst h0
-    have hN : 1 < Nz := by omega
-    simp [h1 0 hi, h1 1 hN]
-  · by_cases hl : i + 1 = Nz
-    · have h2 : Nz - 2 < Nz := by omega
-      simp [h0, hl, h1 i hi, h1 (Nz - 2) h2]
-    · have h3 : i + 1 < Nz := by omega
-      have h4 : i - 1 < Nz := by omega
-      simp [h0, hl, h1 i hi, h1 (i + 1) h3, h1 (i - 1) h4]
+open Snow Num Snow.S2D Snow.Stencil1D
 
 /-- no jacket ⇒ no side flux -/
 theorem qJacket_of_ne (c : Ctx ℝ) (Tsh t : ℝ) (h : c.p.config ≠ Config.jacket) :
